@@ -63,10 +63,26 @@ fn lit(nq: usize, nc: usize, ops: &[&str]) -> CircuitText
 
 fn main()
 {
-    let dir = std::env::args().nth(1).expect("usage: c01 <outdir>");
+    let dir = std::env::args().nth(1).expect("usage: c01 <outdir> [one <repr> <nq> <nc> <ops>]...");
     silence_panics();
     let mut rng = SplitMix64::from_env();
     let mut out = Out::new(&dir);
+    // failing-input search: `one <repr> <nq> <nc> <ops joined by " ; ">` (repeatable) - statistics for exactly these circuits
+    let extra: Vec<String> = std::env::args().skip(2).collect();
+    if !extra.is_empty()
+    {
+        let shots = if thorough() { 200_000 } else { 20_000 };
+        for ch in extra.chunks(5)
+        {
+            if ch.len() < 5 || ch[0] != "one" { continue; }
+            let ct = CircuitText { nq: ch[2].parse().unwrap(), nc: ch[3].parse().unwrap(), ops: ch[4].split(" ; ").map(|s| s.to_string()).collect() };
+            let seed = rng.next();
+            if let Some((r, a)) = hist_line(&ct, shots, seed, &ch[1]) { out.case(&r, &a); }
+            if let Some((r, a)) = tuples_line(&ct, 2, shots / 4, seed, &ch[1]) { out.case(&r, &a); }
+        }
+        out.finish();
+        return;
+    }
     let shots = if thorough() { 200_000 } else { 20_000 };
     let ncirc = if thorough() { 150 } else { 30 };
     // fragment F, vector backend, arbitrary gates
